@@ -80,7 +80,11 @@ pub fn value_roundtrip(vm: &RootedThread, src: &str, settings: &crate::common::S
     use gluon::vm::serialization::{DeSeed, SeSeed};
     use serde_json::json;
     use serde_state::ser::SerializeState;
-    let (value, typ) = match vm.run_expr::<OpaqueValue<RootedThread, Hole>>("prog", src) {
+    // every program gets its own name: serialised closures name their functions after the expression they came from and
+    // a long-lived VM would otherwise see many different functions under one name
+    static COUNTER: std::sync::atomic::AtomicUsize = std::sync::atomic::AtomicUsize::new(0);
+    let name = format!("vs{}", COUNTER.fetch_add(1, std::sync::atomic::Ordering::SeqCst));
+    let (value, typ) = match vm.run_expr::<OpaqueValue<RootedThread, Hole>>(&name, src) {
         Ok(x) => x,
         Err(e) => return json!({"status": "no-value", "msg": e.to_string().lines().next().unwrap_or("").to_string()}),
     };
